@@ -2,6 +2,7 @@
 package c14
 
 import (
+	"bytes"
 	"fmt"
 	"math/big"
 	"runtime"
@@ -48,6 +49,36 @@ func check(c Case, o *stats.Obs) error {
 		if !wantS.IsInt64() || gotS != wantS.Int64() {
 			o.Key = "signed"
 			return fmt.Errorf("GetBitsAsInt64(%x, pos %d, width %d) = %d, want %s", buf, pos, w, gotS, wantS.String())
+		}
+	}
+	// The buffer as a sub-slice of a larger one: extraction gives the same values and writes nothing -
+	// neither into the buffer nor into the bytes behind it (the slice's spare capacity).
+	{
+		big := make([]byte, len(buf), len(buf)+16)
+		copy(big, buf)
+		tail := big[len(buf):cap(big)]
+		for i := range tail {
+			tail[i] = 0xEE
+		}
+		if g := utils.GetBitsAsUint64(big, uint(pos), uint(w)); g != gotU {
+			o.Key = "subslice"
+			return fmt.Errorf("GetBitsAsUint64(%x, pos %d, width %d) = %d on a slice with spare capacity, %d on an exact one", buf, pos, w, g, gotU)
+		}
+		if w >= 2 {
+			if g := utils.GetBitsAsInt64(big, uint(pos), uint(w)); g != gotS {
+				o.Key = "subslice"
+				return fmt.Errorf("GetBitsAsInt64(%x, pos %d, width %d) = %d on a slice with spare capacity, %d on an exact one", buf, pos, w, g, gotS)
+			}
+		}
+		for i := range tail {
+			if tail[i] != 0xEE {
+				o.Key = "wrote-behind-the-buffer"
+				return fmt.Errorf("extraction (pos %d, width %d) wrote into the spare capacity behind the %d-byte buffer: %x", pos, w, len(buf), tail)
+			}
+		}
+		if !bytes.Equal(big, buf) {
+			o.Key = "wrote-into-the-buffer"
+			return fmt.Errorf("extraction (pos %d, width %d) changed the buffer: %x -> %x", pos, w, buf, big)
 		}
 	}
 	// Metamorphic: bits outside the field have no influence.
